@@ -325,20 +325,21 @@ pub fn run(tier: &str, replay: Option<&str>) -> i32 {
             min_recall = min_recall.min(*r);
             distinct.insert((r * 1e6) as u64);
         }
-        let rs: Vec<f64> = o.recalls.iter().map(|x| x.1).collect();
+        let rs: Vec<f64> = o.recalls.iter().filter(|x| !x.0.starts_with("tombstoned-")).map(|x| x.1).collect();
         if let (Some(a), Some(b)) = (rs.iter().cloned().reduce(f64::max), rs.iter().cloned().reduce(f64::min)) {
             max_gap = max_gap.max(a - b);
         }
         table.push(json!({"cell": o.cell, "recall": o.recalls}));
     }
     ev.set("evaluations", searches);
-    ev.set("distinct_nontrivial", (outs.len() * 4) as u64);
+    ev.set("distinct_nontrivial", outs.iter().map(|o| o.recalls.len() as u64).sum::<u64>());
     ev.set("rule", format!("fixed grid, fixed seeds: family {{uniform sphere, Gaussian clusters, low-dimensional manifold}} x metric x dimension x size ({} cells) x build route {{online inserts, bulk build, 60 % delete + forced tombstone compaction, snapshot + recovery rebuild, and the heavy-delete route BEFORE compaction with 30 % / 45 % / 60 % of the slots tombstoned}}, 200 queries each at the default index parameters; recall@10 against an f64 brute force must be >= 0.80, the recall of two routes of one cell must not differ by more than 0.10, and every query repeated from another thread must return bit-identical distances and the same documents except among exactly tied distances. distinct_nontrivial = (cell, route) pairs built and measured", cs.len()));
     ev.set("samples", json!(table.iter().take(3).collect::<Vec<_>>()));
     ev.set("exhaustive", true);
     ev.set("grid_cells", cs.len() as u64);
     ev.set("min_recall_seen", min_recall);
     ev.set("max_route_gap_seen", max_gap);
+    ev.set("max_route_gap_is_over", "the four routes the statement names (uncompacted tombstoned states are held to the floor only)");
     ev.set("distinct_recall_values", distinct.len() as u64);
     ev.set("recall_table", Value::Array(table));
     ev.assume("this is an exhaustive enumeration of a FIXED grid with FIXED seeds: it establishes the floor on these datasets only; no bounded exhaustive space implies a statistical recall floor on other data");
